@@ -161,10 +161,12 @@ def generate_model_code_py(
         ],
         sized=False,
         model_fn=model_fn,
-        variables_template="    {} = variables",
+        # Tuple patterns, so that a single variable is unpacked / returned as
+        # a one-element sequence instead of being bound to the sequence itself
+        variables_template="    ({},) = variables",
         assignment_template="    {k}: float = {v}",
         sympy_inline_fn=sympy_to_inline_py,
-        return_template="    return {}",
+        return_template="    return ({},)",
         end=None,
         free_parameters=free_parameters,
         custom_fns={} if custom_fns is None else custom_fns,
